@@ -1740,8 +1740,6 @@ BTree_rangeSearch(BTree *self, PyObject *args, PyObject *kw, char type)
             PER_UNUSE(lowbucket);
             if (bucketlen > 1)
                 lowoffset = 1;
-            else if (self->len < 2)
-                goto empty;
             else
             {    /* move to first item in next bucket */
                 Bucket *next;
@@ -1750,7 +1748,12 @@ BTree_rangeSearch(BTree *self, PyObject *args, PyObject *kw, char type)
                     goto err;
                 next = lowbucket->next;
                 PER_UNUSE(lowbucket);
-                assert(next != NULL);
+                /* Whether there is a next bucket cannot be told from the
+                 * root's fan-out: a root with a single child can still have
+                 * many buckets below it.
+                 */
+                if (next == NULL)
+                    goto empty;
                 lowbucket = next;
                 /* and lowoffset is still 0 */
                 assert(lowoffset == 0);
@@ -1785,7 +1788,9 @@ BTree_rangeSearch(BTree *self, PyObject *args, PyObject *kw, char type)
         {
             if (highoffset > 0)
                 --highoffset;
-            else if (self->len < 2)
+            else if (highbucket == self->firstbucket)
+                /* (not self->len < 2: a root with a single child can still
+                 * have many buckets below it) */
                 goto empty_and_decref_buckets;
             else /* move to last item of preceding bucket */
             {
